@@ -201,4 +201,54 @@ def r5_limit_asserts(ck, F, R="C18-R5"):
                 okd = all(b.dominates(site, c) for c in casts) and len(casts) >= 1
                 found += 1
                 ck.ob(R, f"length-limit/{who}", okb and okl and okd, f"assert!({who}.len() <= u32::MAX) survives in config {F.config}, its false edge panics, and it dominates the `{who}.len() as u32` narrowing ({len(casts)} cast(s))", b, site)
+    # the same limit spelled `assert!(u32::try_from(x.len()).is_ok())` (clippy's checked_conversions)
+    for s2, c2, t2 in b.calls():
+        if not callee_name(c2).endswith("Result::<T, E>::is_ok"):
+            continue
+        a2 = b.arg_exprs(s2)[0].strip()
+        if not (a2.k == "call" and a2.a and (a2.x["path"].endswith(">::try_from") or a2.x["path"].endswith("::try_into")) and "for u32" in a2.x["path"] + " " + " ".join((a2.x.get("info") or {}).get("args", [])) or (a2.k == "call" and a2.a and (a2.x.get("info") or {}).get("args", ["", ""])[0] == "u32")):
+            continue
+        x = a2.a[0]
+        if not (is_call(x, "::len") and x.strip().a[0].strip().k == "arg"):
+            continue
+        who = x.strip().a[0].strip().x["name"]
+        ed = bool_edges(b, value_site=s2)
+        okb = ed is not None and diverges(b, ed[2])
+        casts = [s for s, s_ in b.sites() if s.i is not None and s_["s"] == "assign" and s_["rv"]["rv"] == "cast" and s_["rv"]["to"] == "u32" and is_call(b.expr_of_operand(s_["rv"]["op"], s), "::len") and is_arg(b.expr_of_operand(s_["rv"]["op"], s).strip().a[0], who)]
+        for s3, c3, t3 in b.calls():
+            e3 = b._expr_of_def((s3, "call", t3))
+            if e3.k == "cast" and e3.x.get("checked") and e3.x.get("to") == "u32" and is_call(e3.a[0], "::len") and is_arg(e3.a[0].strip().a[0], who):
+                casts.append(s3)
+        okd = all(b.dominates(s2, c) for c in casts) and len(casts) >= 1
+        found += 1
+        ck.ob(R, f"length-limit/{who}", okb and okd, f"assert!(u32::try_from({who}.len()).is_ok()) survives in config {F.config}, its false edge panics, and it dominates the narrowing of {who}.len() ({len(casts)} site(s))", b, s2)
+    # ... desugared into the match it abbreviates when the verdict is only branched on
+    for bb in sorted(b.normal_blocks()):
+        if b.term(bb)["t"] != "switch":
+            continue
+        try:
+            e, enum, labels, oth = switch_on(b, bb)
+        except Exception:
+            continue
+        if e.k != "discr" or enum != "std::result::Result" or "Err" not in labels:
+            continue
+        a2 = e.a[0].strip()
+        if not (a2.k == "call" and a2.a and (a2.x["path"].endswith(">::try_from") or a2.x["path"].endswith("::try_into")) and ((a2.x.get("info") or {}).get("args", [""])[0] == "u32" or "for u32" in a2.x["path"])):
+            continue
+        x = a2.a[0]
+        if not (is_call(x, "::len") and x.strip().a[0].strip().k == "arg"):
+            continue
+        who = x.strip().a[0].strip().x["name"]
+        if any(o.key == f"length-limit/{who}" for o in ck.obs if getattr(o, "rule", None) == R and getattr(o, "config", None) == F.config):
+            continue
+        site = Site(bb, None)
+        okb = diverges(b, labels["Err"])
+        casts = [s for s, s_ in b.sites() if s.i is not None and s_["s"] == "assign" and s_["rv"]["rv"] == "cast" and s_["rv"]["to"] == "u32" and is_call(b.expr_of_operand(s_["rv"]["op"], s), "::len") and is_arg(b.expr_of_operand(s_["rv"]["op"], s).strip().a[0], who)]
+        for s3, c3, t3 in b.calls():
+            e3 = b._expr_of_def((s3, "call", t3))
+            if e3.k == "cast" and e3.x.get("checked") and e3.x.get("to") == "u32" and is_call(e3.a[0], "::len") and is_arg(e3.a[0].strip().a[0], who):
+                casts.append(s3)
+        okd = all(b.dominates(site, c) for c in casts) and len(casts) >= 1
+        found += 1
+        ck.ob(R, f"length-limit/{who}", okb and okd, f"assert!(u32::try_from({who}.len()).is_ok()) survives in config {F.config}, its Err edge panics, and it dominates the narrowing of {who}.len() ({len(casts)} site(s))", b, site)
     ck.floor(R, "length-limit assertions", found, 2, F.config)
